@@ -194,7 +194,7 @@ CHECKS = {
     'C11': dict(
         technique='Coq proofs (tableau = phase-exact homomorphism, generated prepend obligations, table inverse/automorphism checks) + '
                   'recomputation of every algebraic operation and conversion from printed operands',
-        text='Proof: eval_hom (T(PQ)=T(P)T(Q) with phases for any valid tableau of any size), prepend_generated_programs_match_table '
+        text='Proof: then_is_composition (the tableau whose rows are B applied to A\'s rows acts as A followed by B, phases included, any n); eval_hom (T(PQ)=T(P)T(Q) with phases for any valid tableau of any size), prepend_generated_programs_match_table '
              '(every Tableau::prepend_* regenerated from source realises the gate table action), table_inverse_is_inverse, '
              'table_actions_are_automorphisms, A0inv_A0/A0_A0inv. Tie H/O: for random tableaus (sizes straddling 64/128, 3 widths) then, '
              'inverse, raised_to (negative and huge exponents), operator+, operator(), scatter append/prepend are recomputed from the '
